@@ -122,7 +122,7 @@ pub struct ScriptProc {
     pub hist: Vec<u64>,
     /// number of `Context` calls this instance's handlers have issued (the process's own account of what it did; compared
     /// with its event log, which is code under test).  A clone (the model checker's copy) counts on its own.
-    pub issued: Rc<std::cell::Cell<u64>>,
+    pub issued: Rc<RefCell<Vec<String>>>,
 }
 
 impl Clone for ScriptProc {
@@ -131,7 +131,7 @@ impl Clone for ScriptProc {
             script: self.script.clone(),
             st: self.st,
             hist: self.hist.clone(),
-            issued: Rc::new(std::cell::Cell::new(self.issued.get())),
+            issued: Rc::new(RefCell::new(self.issued.borrow().clone())),
         }
     }
 }
@@ -142,7 +142,7 @@ impl ScriptProc {
             script,
             st: 0,
             hist: vec![],
-            issued: Rc::new(std::cell::Cell::new(0)),
+            issued: Rc::new(RefCell::new(vec![])),
         }
     }
 
@@ -177,8 +177,17 @@ impl ScriptProc {
                 acts = rule.acts.clone();
             }
             for act in &acts {
-                if !matches!(act, Act::Fail) {
-                    self.issued.set(self.issued.get() + 1);
+                // the process's own record of the call, in a compact form the harness can also derive from the event log
+                let rec = match act {
+                    Act::Send(tip, _, dst) => Some(format!("S:{}:{}", tip, dst)),
+                    Act::Local(tip, _) | Act::Clock(tip) | Act::Rand(tip) => Some(format!("L:{}", tip)),
+                    Act::Set(name, units) => Some(format!("T:{}:{}:0", name, units)),
+                    Act::Once(name, units) => Some(format!("T:{}:{}:1", name, units)),
+                    Act::Cancel(name) => Some(format!("C:{}", name)),
+                    Act::Fail => None,
+                };
+                if let Some(r) = rec {
+                    self.issued.borrow_mut().push(r);
                 }
                 let dat = |d: &Data| match d {
                     Data::Lit(s) => s.clone(),
